@@ -262,6 +262,8 @@ def minimise(job, target, sim_dir, repo, budget=60, wall_budget=150.0):
             out.append(("no wall-clock step", dict(c, wallstep=None)))
         if c.get("release"):
             out.append(("dev profile", dict(c, release=0)))
+        if c.get("vdefault"):
+            out.append(("features=[rand] only", dict(c, vdefault=0)))
         if c.get("gens", 1) > 1:
             out.append((f"gens={c['gens'] - 1}", dict(c, gens=c["gens"] - 1)))
         nthreads = c["K"] + (1 if c["main"] else 0)
@@ -510,6 +512,7 @@ def write_evidence_file(tier, seed, jobs, recs, audit, wall, reported, stopped, 
                 "runs_with_the_callers_own_rand_use_between_draws(ops 20-27)": sum(1 for r in ok if r["job"].get("ops") and (r["job"]["ops"] & 1 or 20 <= (r["job"]["ops"] >> 1) % plan.NOPS < 28)),
                 "runs_in_which_the_wall_clock_stepped_backwards(SystemTime; 1 s .. before the epoch)": sum(1 for r in ok if r["job"].get("wallstep")) if runner.SYSROOT else 0,
                 "runs_with_more_than_64_caller_threads_alive_at_once": sum(1 for r in ok if r["job"]["K"] > 64),
+                "runs_with_volute_built_with_its_default_feature_set(others: default-features=false, features=[rand])": sum(1 for r in ok if r["job"].get("vdefault") and not r["job"].get("target")),
                 "runs_interpreting_the_release_profile": sum(1 for r in ok if r["job"].get("release")),
                 "runs_with_more_than_255_threads_over_process_life": sum(1 for r in ok if runner.nthreads(r["job"]) > 255),
                 "runs_with_successive_thread_generations": sum(1 for r in ok if r["job"].get("gens", 1) > 1),
